@@ -324,6 +324,10 @@ pub fn deviations_ex(cfg: &AttackCfg, r: &RefRun, seed: u64, also_live: bool) ->
             victims: others.clone(),
         });
     };
+    {
+        let js = idxs(cfg.base.circ.and_ops.max(1), &mut rng);
+        out.extend(dvalue_omission_devs(cfg, r, &js.into_iter().take(2).collect::<Vec<_>>()));
+    }
     tapdev("tap:coin-toss-opened-to-other-seed(multi)", tap("shared_rng_seed", None, None), &mut out);
     tapdev("tap:coin-toss-opened-to-other-seed(pairwise)", tap("pairwise_rng_seed", None, None), &mut out);
     if cfg.base.circ.and_ops > 0 {
@@ -331,6 +335,58 @@ pub fn deviations_ex(cfg: &AttackCfg, r: &RefRun, seed: u64, also_live: bool) ->
             tapdev("tap:own-d-value", tap("dvalue_own", Some(j * 8 + rng.random_range(0..4)), None), &mut out);
             tapdev("tap:own-beaver-d", tap("beaver_d_own", Some(j), None), &mut out);
             tapdev("tap:own-beaver-e", tap("beaver_e_own", Some(j), None), &mut out);
+        }
+    }
+    out
+}
+
+/// A cheater that leaves the last opening of bucket `j` out of its 'dvalue' message (both inner
+/// vectors one entry short, towards everybody) and itself continues as if its share of that
+/// opening were the other value: only the length check can catch it (no MAC is sent for it).
+pub fn dvalue_omission_devs(cfg: &AttackCfg, r: &RefRun, js: &[usize]) -> Vec<Dev> {
+    let c = cfg.c;
+    let ss = sites(&r.run, c);
+    let mut seen: BTreeMap<usize, usize> = BTreeMap::new();
+    // first 'dvalue' message per recipient (one round per preprocessing batch)
+    let mut firsts: Vec<usize> = vec![];
+    for (i, s) in ss.iter().enumerate() {
+        if s.phase == "dvalue" {
+            let e = seen.entry(s.to).or_insert(0);
+            if *e == 0 {
+                firsts.push(i);
+            }
+            *e += 1;
+        }
+    }
+    let mut out = vec![];
+    let Some(&first) = firsts.first() else { return out };
+    let m0 = &r.run.transcript[ss[first].tr];
+    let Ok(V::Vec(elems, _)) = schema::decode_msg("dvalue", &m0.data) else { return out };
+    for &j in js {
+        if j >= elems.len() {
+            continue;
+        }
+        let inner = match &elems[j] {
+            V::Tup(f) => match &f[0] {
+                V::Vec(b, _) => b.len(),
+                _ => 0,
+            },
+            _ => 0,
+        };
+        if inner == 0 {
+            continue;
+        }
+        let faults: Vec<Fault> = firsts
+            .iter()
+            .map(|si| fault_at(c, &ss[*si], FaultKind::Mutate(MutSpec::Multi(vec![(vec![j, 0], LeafOp::VecResize(-1)), (vec![j, 1], LeafOp::VecResize(-1))]))))
+            .collect();
+        for with_tap in [true, false] {
+            let taps = if with_tap { vec![TapSpec { party: c, site: "dvalue_own".into(), idx: Some(j * 8 + inner - 1), occ: Some(0), xor: vec![] }] } else { vec![] };
+            out.push(Dev {
+                spec: attacked_spec(cfg, AdvMode::Live, faults.clone(), taps, None, &r.decisions),
+                kind: format!("dvalue#0:last-opening-left-out{}:all-recipients", if with_tap { "+own-share-adapted" } else { "" }),
+                victims: firsts.iter().map(|si| ss[*si].to).collect(),
+            });
         }
     }
     out
